@@ -495,11 +495,16 @@ func (b *bb) scenarioLimit() {
 	before := b.fails()
 	r := b.r
 	q := uint64(1 + r.Intn(7))
-	pattern := []string{"prefilled", "trickle", "stall-burst", "small"}[r.Intn(4)]
+	pattern := []string{"stall-burst", "prefilled", "small", "trickle"}[b.cycle("limit", 4)]
 	interval := time.Duration(10+r.Intn(20)) * time.Millisecond
 	n := []int{0, int(q), 2*int(q) + 1, 3 * int(q), r.Intn(4*int(q) + 1)}[r.Intn(5)]
 	inCap := []int{0, 1, n + 1}[r.Intn(3)]
 	switch pattern {
+	case "stall-burst":
+		// a few elements, a long silence, then far more than 2*Quantity at once: the burst
+		// after the silence must still be spread over the intervals (C04, window form)
+		n = 10 * int(q)
+		inCap = []int{0, 1}[r.Intn(2)]
 	case "small":
 		// fewer than Quantity elements: no pause at all, however long the interval is
 		q++
@@ -532,8 +537,8 @@ func (b *bb) scenarioLimit() {
 			if pattern == "trickle" && i%3 == 0 {
 				time.Sleep(interval / 4)
 			}
-			if pattern == "stall-burst" && i == n/2 {
-				time.Sleep(3 * interval)
+			if pattern == "stall-burst" && i == int(q) {
+				time.Sleep(8 * interval)
 			}
 			in <- i
 		}
@@ -574,6 +579,25 @@ loop:
 		if t.Sub(t0) < min {
 			b.fail("C04 limit: element %d left the output %v after creation, earlier than floor(i/Q)*Interval = %v (Q=%d, Interval=%v, %s)", i, t.Sub(t0), min, q, interval, pattern)
 			break
+		}
+	}
+	// C04 window form on receive times.  An element is received no earlier than it left the
+	// output; what can make receive times denser than send times is only what sat in the
+	// output buffer (capacity 1+cap(input)) while the consumer was late, plus the one whose
+	// timestamp was delayed: at most Q*(floor(W/I)+2) + cap(output) + 2 in any window W.
+	{
+		W := interval / 2
+		allowed := int(q)*(int(W/interval)+2) + (1 + inCap) + 2
+		lo := 0
+		for hi := range recv {
+			for recv[hi].Sub(recv[lo]) > W {
+				lo++
+			}
+			if hi-lo+1 > allowed {
+				b.fail("C04 limit: %d elements were received within %v (elements %d..%d), more than Quantity*(floor(W/Interval)+2) + output buffer + 2 = %d (Q=%d, Interval=%v, cap(input)=%d, %s)",
+					hi-lo+1, W, lo, hi, allowed, q, interval, inCap, pattern)
+				break
+			}
 		}
 	}
 	// C12 no throttling below the rate (upper bounds: slack + what the canary saw)
